@@ -8,6 +8,9 @@ CHECKS = {
  "C12": dict(cat="proof", ref="DESIGN.md §5 C12",
    text="Coq theorems over a model of diff::lines, make_diff, ModifiedLines, json/checkstyle line arithmetic and XmlEscaped, for every pair of texts and every context size (no bound); model tied to the code by a correspondence run (exhaustive over small line sequences + seeded random texts) through cfg-guarded hooks; the property's statement is additionally evaluated on the implementation's own results.",
    note="Trusted: Coq kernel + vm_compute; hand-written model (tied by correspondence, not translation); python oracles and json/xml parsers; serde_json escaping and the print/parse round trip of ModifiedLines are checked on the implementation only (not theorems). Known finding class HasXmlForbiddenChar."),
+ "C03": dict(cat="proof", ref="DESIGN.md §5 C03",
+   text="Coq theorems (31) over a faithful model of CharClasses, the two comment/code slice iterators, CommentReducer, changed_comment_content and recover_comment_removed: every char classified once in order, slices tile the text with exact byte offsets and alternate, the panic arm is unreachable, comment slices start with a comment opener; the safety net returns either the source verbatim or a text with the same comment payload (net_sound), a dropped non-trivial comment is always detected, exact class of trivial comments whose loss is not. Tied to the code by a seeded correspondence run through hooks. rewrite_comment (not modelled) is checked to preserve every comment's words on generated comments under wrap_comments x normalize_comments x widths.",
+   note="Partial: the universal over programs (every comment at the listed positions reappears) is decided per run by an oracle, not by a theorem; the per-rewriter gap recovery and write_list comment plumbing are not modelled. Proof exposed three weaknesses of the net itself (_refuted lemmas): it panics on an unterminated block comment, ignores a '*' anywhere in a continuation line, and cannot see merged words."),
  "C07": dict(cat="proof", ref="DESIGN.md §5 C07",
    text="Coq theorems (22) over a faithful model of the FormatLines scanner, track_errors and the exit-code expressions: the reported set equals a declarative set of offending lines (scan_exact, both directions), 1-based sorted line numbers, selected-only / never-skipped, exact characterisation of the two error options, a trailing blank forces exit 1; for every character stream, width and option setting. Tied to the code by a seeded correspondence run through hooks (format_lines on a buffer, FormatReport accessor, CharClasses export); the property's text is re-stated independently in python and evaluated on the implementation's reports.",
    note="Trusted: Coq kernel; hand-written model; the (kind,char) stream is the implementation's CharClasses output (C03 covers classification); rendering of the report (format_report_formatter) not covered here; deviations of the code from the plain-English property that the proof exposed are listed as _gap lemmas in coq/C07/Props.v and DESIGN.md."),
